@@ -345,6 +345,15 @@ Section Nav.
     St (move_levels d (st_levels st)) None (st_reentrant st) (st_next_step st - d)
        (st_next_surf st) (st_next_level st) (st_failed st).
 
+  (** move_internal(pos): the new global position is transformed down through the daughter
+      transforms of the current volumes; clear_surface(); clear_next() *)
+  Fixpoint set_poss (xf : nat -> xform) (ls : list lstate) (l : nat) (pos : vec) : list lstate :=
+    match ls with
+    | [] => []
+    | x :: r =>
+        LS pos (ls_dir x) (ls_vol x) (ls_univ x) :: set_poss xf r (S l) (x_down (xf l) pos)
+    end.
+
   Fixpoint set_vol_at (l : nat) (vol : nat) (ls : list lstate) : list lstate :=
     match ls, l with
     | [], _ => []
@@ -395,6 +404,10 @@ Section Nav.
     | S k => rotate_up_from g st k (x_rot_up (level_xform g st k) v)
     end.
 
+  Definition move_internal_pos (g : geometry) (st : state) (pos : vec) : state :=
+    St (set_poss (level_xform g st) (st_levels st) 0 pos) None (st_reentrant st) n0 None
+       (st_next_level st) (st_failed st).
+
   Fixpoint set_dirs (g : geometry) (st : state) (ls : list lstate) (l : nat) (d : vec) : list lstate :=
     match ls with
     | [] => []
@@ -441,6 +454,7 @@ Section Nav.
   Inductive op :=
   | FindNext | FindNextMax (g : T)   (* max = g * unlimited distance *)
   | MoveInternal (f : T)            (* distance = f * next_step *)
+  | MoveInternalPos (f : T)         (* move_internal(pos + f * next_step * dir) *)
   | MoveToBoundary | Cross | CrossIfReentrant | SetDir (u : vec) | Trace (n : nat).
 
   Record drv := Drv { d_st : state; d_crossed : bool }.
@@ -513,6 +527,16 @@ Section Nav.
         if has_next_step st && (n0 <? dist) && (dist <=? ns)
            && (negb (dist =? ns) || negb (has_next_surf st)) && is_finite dist
         then let st' := move_internal st dist in (Drv st' false, [observe true st' None])
+        else (d, [observe false st None])
+    | MoveInternalPos f =>
+        let ns := st_next_step st in
+        let dist := f * ns in
+        if has_next_step st && (n0 <? dist) && (dist <? ns) && is_finite dist
+        then
+          let l0 := get_level st 0 in
+          let p := ls_pos l0 in let u := ls_dir l0 in
+          let st' := move_internal_pos g st (V3 (vx p + dist * vx u) (vy p + dist * vy u) (vz p + dist * vz u)) in
+          (Drv st' false, [observe true st' None])
         else (d, [observe false st None])
     | MoveToBoundary =>
         if negb (st_reentrant st) && has_next_step st && has_next_surf st
